@@ -315,7 +315,7 @@ PROPS = {
                       "LogfileSelector::none() without rotation, queries before the first write of "
                       "a run (lazy file creation), restarts when the start-time part is used (a new "
                       "logger legitimately has a new start time).",
-        "rule": "3 of 4 cases are naming/listing/symlink histories, 1 of 4 a try_from path; "
+        "rule": "3 of 4 cases are naming/listing/symlink histories (equivalent builder call sequences per case), 1 of 4 a try_from path (without and with rotation + listing); every 32nd case is a DST child; "
                 "non-trivial iff at least one listing query (or the try_from path) was evaluated; "
                 "distinct = (driver level, naming, name-part mask, cleanup, symlink, clock advanced) "
                 "resp. (absolute/relative, path shape)",
@@ -394,7 +394,7 @@ PROPS = {
                       "noise), not enumerated; the number of distinct fingerprints is the measure.",
         "level_note": "Trusted: the id/payload scheme (payload is a pure function of the id), the "
                       "family parser's chronological order. No order is required between threads.",
-        "rule": "7 of 8 cases log to files in-process, 1 of 8 to stdout/stderr in a child; every "
+        "rule": "7 of 8 cases log to files in-process (every 4th with a format that refuses sprinkled records, every 16th a file + stderr duplicate whose format refuses), 1 of 8 to stdout/stderr in a child; every "
                 "case is non-trivial (>= 2 threads x >= 50 records); distinct = (output, driver "
                 "level, naming, write mode, threads, cleanup, noise) resp. (stream, std mode, "
                 "threads, noise)",
